@@ -3,7 +3,7 @@
    deliver, except on the recorded finding D18.  Only theorems closed by [exact]. *)
 From Coq Require Import ZArith List Floats.
 From F2G Require Import Go.GoFloat Model.Util Model.ControlLoop Model.Curves
-  Proofs.CurveFn Proofs.CurveMono Proofs.CurveRange Proofs.CurveLinks Drv.Common Drv.Curves Props.C06.
+  Proofs.CurveFn Proofs.CurveMono Proofs.CurveRange Proofs.CurveLinks Proofs.StepsCloseLink Drv.Common Drv.Curves Props.C06.
 Import ListNotations.
 Open Scope Z_scope.
 
@@ -35,7 +35,7 @@ Proof. exact wfb_wf_tree. Qed.
 Print Assumptions C06_wf_tree_of_wfb.
 
 (* ---- (2) no false alarm ---- *)
-(* the one demand of the observer that is not derived from a proved theorem: closeness
+(* the one demand of the observer that needed a theorem of its own (proved below): closeness
    |v - exact interpolant| <= 1/2 + 2^-10 of a ROOT steps curve (keys |k| < 2^20, speeds in [0,255]) *)
 Definition C06_StepsDocClose : Prop := StepsDocClose.
 
@@ -52,6 +52,20 @@ Theorem C06_no_false_alarm : StepsDocClose -> forall c,
   mismatch c = false -> holdsb c = true \/ finding_code c = 1.
 Proof. exact curves_no_false_alarm. Qed.
 Print Assumptions C06_no_false_alarm.
+
+(* that conjunct is now PROVED (Proofs/StepsClose.v, StepsCloseLink.v): for every steps curve with
+   keys |k| < 2^20 and speeds in [0,255] and every finite reading, the value is within 1/2 + 2^-10 of
+   the exact piecewise-linear interpolant (segment error <= 2^-15 through eight binary64 roundings
+   and the binary32 rounding; the code's segment choice with fl(T/1000) differs from the exact one
+   only at a key; math.Round adds 1/2) *)
+Theorem C06_StepsDocClose_proved : StepsDocClose.
+Proof. exact steps_doc_close. Qed.
+Print Assumptions C06_StepsDocClose_proved.
+
+(* hence, unconditionally, for EVERY case of driver `curves` *)
+Theorem C06_no_false_alarm_all : forall c, mismatch c = false -> holdsb c = true \/ finding_code c = 1.
+Proof. exact curves_no_false_alarm_all. Qed.
+Print Assumptions C06_no_false_alarm_all.
 
 (* the documented value of a min/max curve in the observer's exact rationals follows from
    C06_lin_minmax_ends and C06_lin_minmax_mid *)
